@@ -92,7 +92,7 @@ func checkC08(c *Ctx) {
 	// the router is built from the flattened document (path-item $refs resolved): loads.Embedded(orig, flat)
 	checkEmbeddedOrder(c, "C08.R1.routed-document", ev, gen)
 
-	checkRouteClash(c, gen)
+	checkRouteClash(c, "C08.R1.route-clash", gen)
 	checkOperationIdentity(c, gen)
 	checkOperationDedup(c, gen)
 	checkCollisionDetection(c, gen)
@@ -483,8 +483,7 @@ func detectsCollision(info *types.Info, fd *ast.FuncDecl) bool {
 
 // checkRouteClash: the builder template registers handlers under (METHOD, path.Clean(path));
 // the Go side must refuse, for a server, two operations that share that key.
-func checkRouteClash(c *Ctx, gen *packages.Package) {
-	rule := "C08.R1.route-clash"
+func checkRouteClash(c *Ctx, rule string, gen *packages.Package) {
 	c.Rule(rule, "planning a server fails when two operations share the registration key of the handler map (method + cleaned path)", 1)
 	fd := load.FuncDecl(gen, "appGenerator.makeCodegenApp")
 	if fd == nil {
